@@ -855,6 +855,19 @@ def check_output_workbook(inp_path, out_path, spec, hist):
                 seen.append(v)
         if seen != want_ids:
             return '[output-histograms] Histograms sheet lists samples %s, expected %s' % (seen, want_ids)
+        # every row carries its identifiers (sample, channel, line kind): "every row is preserved", "reading back returns the same
+        # row identifiers"
+        ids3 = [tuple(h.iloc[r, 0:3].tolist()) for r in range(len(h))]
+        blank = [r for r, t3 in enumerate(ids3) if any(isnull(v) for v in t3)]
+        if blank:
+            return '[output-histograms-identifiers] Histograms row %d read back with identifiers %r (empty cells)' % (blank[0] + 2, ids3[blank[0]])
+        for s_ in spec.get('samples', []):
+            for c in spec.get('units_columns', []):
+                if s_['units'].get(c) is None:
+                    continue
+                kinds = [str(t3[2]) for t3 in ids3 if t3[0] == s_['id'] and t3[1] == c]
+                if len(kinds) != 2 or 'Counts' not in kinds or not any(k.startswith('Bin Centers') for k in kinds):
+                    return '[output-histograms-identifiers] sample %s channel %s: histogram lines %r, expected bin centres and counts' % (s_['id'], c, kinds)
     import pandas as pd
     ab = pd.read_excel(out_path, sheet_name='About Analysis', engine='openpyxl')
     if len(ab) == 0:
